@@ -48,13 +48,13 @@ Fixpoint spec_run (keep : bool) (zero : Qc) (evs : list event) (n : Z) (done : b
   end.
 
 (* ControlStream: every read returns the value most recently assigned *)
-Fixpoint cspec (v0 : Qc) (before : list cop) : Qc :=
+Fixpoint cspec {V : Type} (v0 : V) (before : list (cop V)) : V :=
   match before with
   | [] => v0
   | CSet v :: r => cspec v r
   | CNext :: r => cspec v0 r
   end.
-Fixpoint cspec_run (v0 : Qc) (pre ops : list cop) : list Qc :=
+Fixpoint cspec_run {V : Type} (v0 : V) (pre ops : list (cop V)) : list V :=
   match ops with
   | [] => []
   | CSet v :: r => cspec_run v0 (pre ++ [CSet v]) r
